@@ -458,11 +458,52 @@ pub fn run(cfg: &RunCfg) -> CheckReport {
             }
         }
     });
+    if ex.acc.violation.is_none() {
+        // every atom right before / at / after each power-of-two byte offset up to 2^17
+        // (buffer, block and sample sizes), in ASCII filler
+        let mut offs: Vec<usize> = vec![];
+        for k in 6..=cfg.tier.pick(17u32, 20u32) {
+            let p = 1usize << k;
+            offs.extend_from_slice(&[p - 2, p - 1, p, p + 1]);
+        }
+        let ex2 = explore(cfg, atoms.len(), |shard, acc| {
+            let atom = &atoms[shard];
+            for &pos in &offs {
+                let mut t = vec![b'a'; pos];
+                t.extend_from_slice(atom);
+                t.extend_from_slice(b"a z\n");
+                match check_bytes(&t) {
+                    Ok((nt, ntok, fp)) => {
+                        if pos == 65535 && shard % 13 == 0 {
+                            acc.sample(json!({"atom": String::from_utf8_lossy(atom), "byte_offset": pos}));
+                        }
+                        acc.ok(nt, ntok, fp ^ pos as u64);
+                    }
+                    Err(e) => {
+                        let short = if e.len() > 600 { format!("{} ...", &e[..e.char_indices().nth(600).map_or(e.len(), |x| x.0)]) } else { e };
+                        acc.violation(|| (json!({"power_of_two_sweep": true, "atom": atom, "byte_offset": pos}), format!("atom {:?} at byte offset {} of an ASCII filler: {}", String::from_utf8_lossy(atom), pos, short)))
+                    }
+                }
+                if acc.stop() {
+                    return;
+                }
+            }
+        });
+        rep.part("positions-power-of-two", json!({"atoms": atoms.len(), "offsets": "2^k-2 .. 2^k+1 for k = 6..17 (thorough: ..20)", "note": "enumerated family"}), ex2);
+    }
     rep.part("positions-and-long-texts", json!({"atoms": atoms.len(), "fillers": ["a", "e-acute", "CJK"], "offsets": format!("0..={}", maxpos), "long_texts": long.len(), "note": "enumerated family"}), ex);
     rep
 }
 
 pub fn replay(case: &Value) -> Result<String, String> {
+    if case.get("power_of_two_sweep").is_some() {
+        let atom = parse_bytes(case, "atom")?;
+        let pos = parse_u64(case, "byte_offset")? as usize;
+        let mut t = vec![b'a'; pos];
+        t.extend_from_slice(&atom);
+        t.extend_from_slice(b"a z\n");
+        return check_bytes(&t).map(|(_, n, fp)| format!("holds; {} tokens, fingerprint {:x}", n, fp)).map_err(|e| e.chars().take(800).collect());
+    }
     let b = parse_bytes(case, "bytes")?;
     check_bytes(&b).map(|(_, n, fp)| format!("holds; {} tokens, fingerprint {:x}", n, fp))
 }
